@@ -70,10 +70,12 @@ Proof.
   destruct (find_asset s d) as [x|]; [|reflexivity]. rewrite H. reflexivity.
 Qed.
 
-Lemma create_swap_unauth : forall e s a rcp d amt rest,
-  authorised e s (CreateSwap a rcp d amt rest) = false -> create_swap e s a rcp d amt rest = Err.
+Lemma create_swap_unauth : forall e s a rcp amount rest,
+  authorised e s (CreateSwap a rcp amount rest) = false -> create_swap_msg e s a rcp amount rest = Err.
 Proof.
-  intros e s a rcp d amt rest H. cbn [authorised] in H. unfold create_swap.
+  intros e s a rcp amount rest H. unfold create_swap_msg.
+  destruct amount as [|[d amt] [|c r]]; try reflexivity.
+  cbn [authorised] in H. unfold create_swap.
   destruct (is_macc e rcp); [reflexivity|].
   destruct (find_b3 s d) as [x|]; [|reflexivity].
   apply orb_false_iff in H. destruct H as [H1 H2]. rewrite H1, H2. reflexivity.
@@ -218,7 +220,7 @@ Qed.
 
 Theorem incoming_swap_requires_deputy : forall e s b rcp d amt rest,
   (forall x, find_b3 s d = Some x -> b <> b3_deputy x /\ rcp <> b3_deputy x) ->
-  step e s (CreateSwap b rcp d amt rest) = Err.
+  step e s (CreateSwap b rcp [(d, amt)] rest) = Err.
 Proof.
   intros e s b rcp d amt rest H. apply unauthorised_rejected. cbn [authorised].
   destruct (find_b3 s d) as [x|]; [|reflexivity].
@@ -228,12 +230,12 @@ Qed.
 (* a swap recorded as incoming has the deputy as sender; a swap sent by anyone
    else is recorded as outgoing and goes to the deputy *)
 Theorem create_swap_direction : forall e s a rcp d amt rest s' out,
-  step e s (CreateSwap a rcp d amt rest) = Ok s' out ->
+  step e s (CreateSwap a rcp [(d, amt)] rest) = Ok s' out ->
   exists x, find_b3 s d = Some x /\
     ((a = b3_deputy x /\ rcp <> b3_deputy x /\ swaps s' = mkSwap a rcp d amt true :: swaps s) \/
      (a <> b3_deputy x /\ rcp = b3_deputy x /\ swaps s' = mkSwap a rcp d amt false :: swaps s)).
 Proof.
-  intros e s a rcp d amt rest s' out H. cbn [step] in H. unfold create_swap in H.
+  intros e s a rcp d amt rest s' out H. cbn [step create_swap_msg] in H. unfold create_swap in H.
   destruct (is_macc e rcp); [discriminate|].
   destruct (find_b3 s d) as [x|]; [|discriminate]. exists x. split; [reflexivity|].
   destruct (Nat.eqb a (b3_deputy x)) eqn:Ea.
@@ -247,9 +249,9 @@ Qed.
 
 (* the deputy's incoming message, sent by anybody else, is refused *)
 Theorem deputy_message_from_other_signer : forall e s a rcp d amt rest s' out x,
-  step e s (CreateSwap a rcp d amt rest) = Ok s' out ->
+  step e s (CreateSwap a rcp [(d, amt)] rest) = Ok s' out ->
   find_b3 s d = Some x -> a = b3_deputy x ->
-  forall b r, b <> a -> step e s (CreateSwap b rcp d amt r) = Err.
+  forall b r, b <> a -> step e s (CreateSwap b rcp [(d, amt)] r) = Err.
 Proof.
   intros e s a rcp d amt rest s' out x H F Ea b r Hb.
   destruct (create_swap_direction _ _ _ _ _ _ _ _ _ H) as [y [Fy [[_ [Hr _]]|[Hn _]]]];
@@ -257,6 +259,22 @@ Proof.
   - apply incoming_swap_requires_deputy. intros z Fz. rewrite F in Fz. inversion Fz; subst z.
     split; [congruence | exact Hr].
   - contradiction.
+Qed.
+
+(* an accepted swap creation carries exactly one coin; a message with none or
+   several coins is refused for every signer *)
+Theorem create_swap_single_coin : forall e s a rcp amount rest s' out,
+  step e s (CreateSwap a rcp amount rest) = Ok s' out -> exists d amt, amount = [(d, amt)].
+Proof.
+  intros e s a rcp amount rest s' out H. cbn [step] in H. unfold create_swap_msg in H.
+  destruct amount as [|[d amt] [|c r]]; try discriminate. exists d, amt. reflexivity.
+Qed.
+
+Theorem create_swap_multi_coin_refused : forall e s a rcp amount rest,
+  length amount <> 1%nat -> step e s (CreateSwap a rcp amount rest) = Err.
+Proof.
+  intros e s a rcp amount rest H. cbn [step]. unfold create_swap_msg.
+  destruct amount as [|[d amt] [|c r]]; try reflexivity. cbn in H. congruence.
 Qed.
 
 Theorem submit_requires_member : forall e s b c dur rest,
@@ -634,7 +652,9 @@ Proof.
     destruct (negb (Nat.eqb a (as_owner a0))); [discriminate|].
     destruct (Bool.eqb (as_paused a0) st); inversion H; subst; [exact I | frame_tac I].
   - (* CreateSwap *)
-    destruct (create_swap_direction _ _ _ _ _ _ _ _ _ H) as [x [F D]].
+    destruct (create_swap_single_coin _ _ _ _ _ _ _ _ H) as [d [amt Ea]]. subst amount.
+    cbn [create_swap_msg] in H.
+    destruct (create_swap_direction e s a rcp d amt rest s' out H) as [x [F D]].
     assert (Hb : b3assets s' = b3assets s /\ committees s' = committees s /\ proposals s' = proposals s
                  /\ next_pid s' = next_pid s /\ votes s' = votes s).
     { unfold create_swap in H. destruct (is_macc e rcp); [discriminate|].
